@@ -257,8 +257,17 @@ async fn run_script(s: Script) -> (Vec<Ev>, Vec<Ev>) {
 	}
 	let wx = Watchexec::with_config(config).expect("watchexec");
 	let main = wx.main();
-	// let the watcher register (the poll watcher takes its first snapshot)
+	// let the watcher register (the poll watcher takes its first snapshot): a sentinel file is rewritten
+	// until the source reports something, then things are left to calm down
 	tokio::time::sleep(Duration::from_millis(if s.watcher == "poll" { 250 } else { 120 })).await;
+	let limit = Instant::now() + Duration::from_secs(10);
+	let mut n = 0;
+	while made.lock().unwrap().is_empty() && Instant::now() < limit {
+		n += 1;
+		let _ = std::fs::write(base.join("root/pass_sentinel"), format!("{n}"));
+		tokio::time::sleep(Duration::from_millis(if s.watcher == "poll" { 120 } else { 60 })).await;
+	}
+	tokio::time::sleep(Duration::from_millis(if s.watcher == "poll" { 400 } else { 250 })).await;
 
 	let mut src = vec![Ev::new("reset").a(s.id.clone()).b(s.watcher.clone())];
 	for (i, op) in s.ops.iter().enumerate() {
